@@ -40,11 +40,26 @@ class _SymbolicExpressionContainer(typing_extensions.Protocol[T_cov]):
         ...  # pragma: no cover
 
 
+def _stable_iter(values: typing.Iterable[T]) -> typing.Iterable[T]:
+    """Get an iterable over ``values`` that is safe to add to an owning
+    collection from.
+
+    Adding a value to an owning collection removes it from the collection
+    that held it before, so bulk insertions must not iterate over such a
+    collection while adding. Collections are copied first; one-shot iterators
+    are consumed lazily, as they cannot be copied without running them.
+    """
+
+    if isinstance(values, typing.Iterator):
+        return values
+    return list(values)
+
+
 class ListWrapper(typing.MutableSequence[T]):
     def __init__(self, *args: typing.Iterable[T]):
         self._data: typing.List[T] = []
         for values in args:
-            for value in values:
+            for value in _stable_iter(values):
                 self.append(value)
 
     def _add(self, value: T) -> None:
@@ -135,7 +150,7 @@ class ListWrapper(typing.MutableSequence[T]):
     # extend is not in every version of Python 3, so list wrapper adds it here
     # itself.
     def extend(self, other: typing.Iterable[T]) -> None:
-        for v in other:
+        for v in _stable_iter(other):
             self.append(v)
 
     # end functions for ABC
@@ -160,7 +175,7 @@ class SetWrapper(typing.MutableSet[T]):
     def __init__(self, *args: typing.Iterable[T]):
         self._data: typing.Set[T] = set()
         for arg in args:
-            for v in arg:
+            for v in _stable_iter(arg):
                 self.add(v)
 
     @classmethod
@@ -211,7 +226,7 @@ class SetWrapper(typing.MutableSet[T]):
     def __ior__(  # type: ignore
         self: _SetWrapperSelf, other: typing.AbstractSet[T]
     ) -> _SetWrapperSelf:
-        for value in other:
+        for value in _stable_iter(other):
             self.add(value)
         return self
 
@@ -233,7 +248,7 @@ class SetWrapper(typing.MutableSet[T]):
     # For whatever reason, update isn't included as part of abc.MutableSet.
     def update(self, *others: typing.Iterable[T]) -> None:
         for other in others:
-            for v in other:
+            for v in _stable_iter(other):
                 self.add(v)
 
     def __str__(self) -> str:
